@@ -216,6 +216,21 @@ fn gen_tuple(rng: &mut Rng, arity: usize, earlier: &[Vec<String>]) -> Vec<String
         return rng.pick(earlier).clone();
     }
     let mut t: Vec<String> = Vec::new();
+    if rng.chance(1, 6) {
+        // long values of equal length that differ only somewhere in the middle (or at the ends)
+        for _ in 0..arity {
+            let len = *rng.pick(&[65usize, 80, 129, 300]);
+            let mut v: Vec<u8> = (0..len).map(|i| b'a' + (i % 7) as u8).collect();
+            let pos = match rng.below(4) {
+                0 => 0,
+                1 => len - 1,
+                _ => len / 2 + rng.usize_below(3),
+            };
+            v[pos] = b'A' + rng.below(3) as u8;
+            t.push(String::from_utf8(v).unwrap());
+        }
+        return t;
+    }
     if arity >= 2 && rng.chance(3, 5) {
         let fam = rng.pick(SHIFT_FAMILIES);
         let at = rng.usize_below(arity - 1);
@@ -297,9 +312,10 @@ pub fn run_case(cx: &mut Ctx) {
     let kind = *rng.pick(&[VK::Counter, VK::IntCounter, VK::Gauge, VK::IntGauge, VK::Histogram, VK::LocalCounter, VK::LocalIntCounter, VK::LocalHistogram]);
     let mut ln: Vec<&str> = VALID_LABEL_NAMES.iter().copied().collect();
     rng.shuffle(&mut ln);
-    let arity = 1 + rng.usize_below(4);
+    // mostly 1-4 labels; sometimes a wide vector (9-11 labels, declared in shuffled, i.e. non-alphabetical, order)
+    let arity = if rng.chance(1, 12) { 9 + rng.usize_below(3) } else { 1 + rng.usize_below(4) };
     let names: Vec<String> = ln[..arity].iter().map(|s| s.to_string()).collect();
-    let nconst = rng.usize_below(3);
+    let nconst = rng.usize_below(3).min(ln.len() - arity);
     let consts: Vec<(String, String)> = ln[arity..arity + nconst].iter().map(|s| (s.to_string(), pools::any_string(&mut rng))).collect();
     let name_refs: Vec<&str> = names.iter().map(|s| s.as_str()).collect();
     let mut cl = HashMap::new();
